@@ -214,3 +214,62 @@ package zygo
 //@ C01 pure
 //@ C01 ensures fresh(r0) && wfs(r0) && r0.tos == stack.tos && r0.env == stack.env
 //@ C01 loop 0 invariant -1 <= rangeindex && rangeindex < len(stack.elements) && len(stack.elements) == old(len(stack.elements)) && len(ret.elements) == len(stack.elements) && fresh(ret) && fresh(sarr(ret.elements)) && ret.tos == stack.tos && ret.env == stack.env
+
+// ===========================================================================
+// C19  symbols are interned consistently
+// ===========================================================================
+// The two tables are mutually inverse on their domains.  (Deliberately not
+// "the counter is above every used number": duplicates carry stale counters.)
+//@ macro bij(env *Zlisp) bool = forall(n, string, has(env.symtable, n) ==> has(env.revsymtable, env.symtable[n]) && env.revsymtable[env.symtable[n]] == n)
+//@ |  && forall(k, int, has(env.revsymtable, k) ==> has(env.symtable, env.revsymtable[k]) && env.symtable[env.revsymtable[k]] == k)
+
+//@ func (*Zlisp).DetectSigils
+//@ C19 modifies sym.isSigil, sym.sigil
+//@ C19 ensures sym != nil ==> sym.name == old(sym.name) && sym.number == old(sym.number)
+
+//@ func (*Zlisp).MakeSymbol
+//@ requires env != nil
+//@ requires bij(env)
+//@ C19 modifies env.nextsymbol, map(env.symtable), map(env.revsymtable)
+//@ C19 ensures inv: bij(env)
+//@ C19 ensures result: fresh(r0) && r0.name == name && has(env.symtable, name) && r0.number == env.symtable[name]
+//@ C19 ensures same-tables: env.symtable == old(env.symtable) && env.revsymtable == old(env.revsymtable)
+//@ C19 ensures known: old(has(env.symtable, name)) ==> forall(n, string, has(env.symtable, n) == old(has(env.symtable, n)) && env.symtable[n] == old(env.symtable[n]))
+//@ |  && forall(k, int, has(env.revsymtable, k) == old(has(env.revsymtable, k)) && env.revsymtable[k] == old(env.revsymtable[k]))
+//@ C19 ensures new-number: !old(has(env.symtable, name)) ==> let(num, r0.number, !old(has(env.revsymtable, num)))
+//@ C19 ensures new-sym: !old(has(env.symtable, name)) ==> forall(n, string, n != name ==> has(env.symtable, n) == old(has(env.symtable, n)) && env.symtable[n] == old(env.symtable[n]))
+//@ C19 ensures new-rev: !old(has(env.symtable, name)) ==> forall(k, int, k != r0.number ==> has(env.revsymtable, k) == old(has(env.revsymtable, k)) && env.revsymtable[k] == old(env.revsymtable[k])) && env.revsymtable[r0.number] == name
+
+// A generated symbol's name was not interned before the call: it differs from
+// every symbol that exists when it is generated (and therefore from every
+// earlier generated symbol).
+//@ func (*Zlisp).GenSymbol
+//@ requires env != nil
+//@ requires bij(env)
+//@ C19 ensures inv: bij(env)
+//@ C19 ensures fresh-name: let(nm, r0.name, !old(has(env.symtable, nm))) && has(env.symtable, r0.name) && env.symtable[r0.name] == r0.number
+//@ C19 ensures fresh-number: let(num, r0.number, !old(has(env.revsymtable, num)))
+//@ C19 loop 0 invariant bij(env) && env.symtable == old(env.symtable) && env.revsymtable == old(env.revsymtable)
+//@ |  && forall(n, string, has(env.symtable, n) == old(has(env.symtable, n))) && forall(k, int, has(env.revsymtable, k) == old(has(env.revsymtable, k)))
+
+//@ func (*Zlisp).compareSymbol
+//@ C19 ensures typeis(expr, *SexpSymbol) ==> r1 == nil && iff(r0 == 0, sym.number == expr.(*SexpSymbol).number)
+//@ C19 pure
+
+//@ func hashHelper
+//@ C19 ensures symbol: old(typeis(expr, *SexpSymbol)) ==> err == nil && !isList && hashcode == old(expr.(*SexpSymbol).number)
+
+//@ func (*Zlisp).MakeFunction
+//@ pure
+//@ trusted
+//@ ensures fresh(r0)
+
+//@ func (*Zlisp).Duplicate
+//@ requires wfs(env.linearstack) && env.linearstack.tos >= 0
+//@ C19 ensures shared: fresh(r0) && r0.symtable == old(env.symtable) && r0.revsymtable == old(env.revsymtable) && r0.nextsymbol == old(env.nextsymbol)
+//@ C19 ensures untouched: env.symtable == old(env.symtable) && env.revsymtable == old(env.revsymtable) && env.nextsymbol == old(env.nextsymbol)
+
+//@ func (*Zlisp).Clone
+//@ requires wfs(env.linearstack) && env.linearstack.tos >= 0 && wfs(env.datastack) && wfs(env.addrstack) && (env.loopstack != nil ==> wfs(env.loopstack))
+//@ C19 ensures shared: fresh(r0) && r0.symtable == old(env.symtable) && r0.revsymtable == old(env.revsymtable) && r0.nextsymbol == old(env.nextsymbol)
+//@ C19 ensures untouched: env.symtable == old(env.symtable) && env.revsymtable == old(env.revsymtable) && env.nextsymbol == old(env.nextsymbol)
